@@ -35,6 +35,7 @@ func Spec() ev.Spec {
 type op struct {
 	Add   *refmodel.Hdr
 	IsTip bool
+	IsLoc bool // build a block locator (tip, then one look-up per locator height: several repository calls)
 }
 
 type scenario struct {
@@ -94,6 +95,10 @@ func scenarios() []scenario {
 	out = append(out, scenario{"three-submitters", []refmodel.Hdr{a, bb}, [][]op{{add(b.mk(bb.HashOf(), gen.BitsNormal))}, {add(b.mk(bb.HashOf(), gen.BitsLight))}, {add(b.mk(a.HashOf(), gen.BitsHeavy))}}})
 	// 11: zero-work extension vs normal extension
 	out = append(out, scenario{"zero-work-vs-extension", []refmodel.Hdr{a}, [][]op{{add(b.mk(a.HashOf(), gen.BitsZero))}, {add(b.mk(a.HashOf(), gen.BitsNormal))}}})
+	// 13/14: a locator is built while a reorganisation / an extension is in progress
+	l1 := b.mk(bb.HashOf(), gen.BitsNormal)
+	out = append(out, scenario{"locator-during-reorg", []refmodel.Hdr{a, bb, l1}, [][]op{{add(b.mk(g, gen.BitsHeavy))}, {{IsLoc: true}}}})
+	out = append(out, scenario{"locator-during-reorg-down", []refmodel.Hdr{a, bb, l1}, [][]op{{add(b.mk(a.HashOf(), gen.BitsHeavy))}, {{IsLoc: true}, {IsLoc: true}}}})
 	// 12: orphan and its would-be parent
 	par := b.mk(a.HashOf(), gen.BitsNormal)
 	out = append(out, scenario{"orphan-and-late-parent", []refmodel.Hdr{a}, [][]op{{add(b.mk(par.HashOf(), gen.BitsNormal))}, {add(par)}, {{IsTip: true}}}})
@@ -172,12 +177,28 @@ func (e *env) execute(sc scenario, choose func(i int, enabled []int, last int) i
 	var clock int64
 	evs := make([][]event, len(sc.Threads))
 	lastTip := make([]string, len(sc.Threads))
+	var locBad atomic.Value
 	for ti, ops := range sc.Threads {
 		ti, ops := ti, ops
 		s.Go(fmt.Sprintf("T%d", ti), func() {
 			for _, o := range ops {
 				ev := event{client: ti, call: atomic.AddInt64(&clock, 1)}
-				if o.IsTip {
+				if o.IsLoc {
+					ev.input = histIn{Kind: "tip"} // a read: left out of the linearizability history like GetTip
+					func() {
+						defer func() {
+							if p := recover(); p != nil {
+								locBad.CompareAndSwap(nil, fmt.Sprintf("LatestHeaderLocator panicked: %v", p))
+							}
+						}()
+						for i, h := range e.st.Svc.Headers.LatestHeaderLocator() {
+							if h == nil {
+								locBad.CompareAndSwap(nil, fmt.Sprintf("locator entry %d is nil", i))
+							}
+						}
+					}()
+					e.r.Count("locators_built_under_the_scheduler", 1)
+				} else if o.IsTip {
 					ev.input = histIn{Kind: "tip"}
 					tip := e.st.Svc.Headers.GetTip()
 					if tip != nil {
@@ -233,6 +254,9 @@ func (e *env) execute(sc scenario, choose func(i int, enabled []int, last int) i
 	})
 	res.decisions, res.trace, res.err = decisions, s.Trace(), err
 	e.sched = nil
+	if b := locBad.Load(); b != nil && res.viol == "" {
+		res.viol, res.violSig = "a reader building a block locator during this schedule: "+b.(string), "reader-locator|"+sc.Name
+	}
 	if err != nil {
 		return res
 	}
@@ -486,7 +510,7 @@ func freeRunning(r *ev.Run, i int) *p2prig.Scenario {
 }
 
 func body(r *ev.Run) {
-	r.Rule("(1) free-running: legacy full server / experimental peers against 2-4 scripted nodes that connect, announce (inv and headers, two peers at once), drop and get re-dialled, an inbound peer, and 3 concurrent HTTP readers on /network/peer, /network/peer/count, tips and headers; built with -race, every report attributed by innermost repository functions. (2) controlled scheduler at the repository interface: 12 scenarios of 2-3 submitters/readers (both extend the tip; extend vs heavier fork; two reorganising forks; same header twice; child and parent; chain vs fork; stale branch overtaking; readers during reorganisation/extensions; zero-work; orphan and late parent), depth-first enumeration of all schedules within a pre-emption bound for two-thread scenarios, seeded random schedules otherwise; after EVERY granted step, with the world stopped, the table must satisfy the structural invariant and a reader's tip must be a LONGEST row. (4) free-running reorganisation storms: one submitter flips the best chain between a tall light branch and a lower heavier one while 6 readers ask for the tip (HTTP and service layer) as fast as they can - every read must name a stored header. (3) every execution's Add/GetTip history plus the final table is checked for linearizability against the reference model with porcupine. evaluations = controlled executions + free-running scenarios; distinct = distinct granted-step sequences; non-trivial = all.")
+	r.Rule("(1) free-running: legacy full server / experimental peers against 2-4 scripted nodes that connect, announce (inv and headers, two peers at once), drop and get re-dialled, an inbound peer, and 3 concurrent HTTP readers on /network/peer, /network/peer/count, tips and headers; built with -race, every report attributed by innermost repository functions. (2) controlled scheduler at the repository interface: 14 scenarios of 2-3 submitters/readers (both extend the tip; extend vs heavier fork; two reorganising forks; same header twice; child and parent; chain vs fork; stale branch overtaking; readers (tip, block locator) during reorganisation/extensions; zero-work; orphan and late parent), depth-first enumeration of all schedules within a pre-emption bound for two-thread scenarios, seeded random schedules otherwise; after EVERY granted step, with the world stopped, the table must satisfy the structural invariant and a reader's tip must be a LONGEST row. (4) free-running reorganisation storms: one submitter flips the best chain between a tall light branch and a lower heavier one while 6 readers ask for the tip (HTTP and service layer) as fast as they can - every read must name a stored header. (3) every execution's Add/GetTip history plus the final table is checked for linearizability against the reference model with porcupine. evaluations = controlled executions + free-running scenarios; distinct = distinct granted-step sequences; non-trivial = all.")
 	r.Assume("scheduling granularity = calls of repository.Headers (each one SQL statement/transaction)", "a thread blocked on a Go mutex is treated as disabled (goroutine status from runtime.Stack)", "free-running schedules are whatever the real goroutines/sockets produce under load")
 	r.Require("schedules_executed", 200)
 	r.Require("invariant_evaluations", 1000)
